@@ -8,6 +8,7 @@ def Method.off : Method → Nat
   | .toChunkReader off _ _ => off.toNat
   | .cloneCopy _ m => m.off
   | .cloneStream m => m.off
+  | .withTask m => m.off
   | _ => 0
 
 /-- What an observation owes to the final state `k` of the validator behind it. -/
@@ -85,6 +86,7 @@ theorem runErr_sound {k : Core} {r : Res} (hr : RFin r k) (hne : r ≠ .ok) (off
     exact base _ h1 h2
   | cloneCopy _ m ih => exact ih
   | cloneStream m ih => exact ih
+  | withTask m ih => exact ih
 
 end BB.Validate
 
@@ -221,6 +223,7 @@ theorem runSlice_seg (data : List Nat) : ∀ m,
       cases this
   | cloneCopy _ m ih => exact ih
   | cloneStream m ih => exact ih
+  | withTask m ih => exact ih
 
 end BB.Validate
 
